@@ -91,6 +91,7 @@ func RepoAuto() AutoCfg {
 
 var fontTmpMu sync.Mutex
 var fontTmp = map[string]string{}
+var fontSeq int
 var tmpDir string
 
 func fontPathFor(o Opts) string {
@@ -107,15 +108,16 @@ func fontPathFor(o Opts) string {
 			}
 			tmpDir = d
 		}
-		p := filepath.Join(tmpDir, fmt.Sprintf("font_%d.json", len(fontTmp)))
-		if err := os.WriteFile(p, []byte(o.FontJSON), 0o644); err != nil {
-			panic(err)
-		}
-		if len(fontTmp) > 4096 { // keep the temp dir bounded
+		if len(fontTmp) > 2048 { // keep the temp dir bounded (evict BEFORE writing the new file)
 			for k, v := range fontTmp {
 				os.Remove(v)
 				delete(fontTmp, k)
 			}
+		}
+		fontSeq++
+		p := filepath.Join(tmpDir, fmt.Sprintf("font_%d.json", fontSeq)) // names are never reused
+		if err := os.WriteFile(p, []byte(o.FontJSON), 0o644); err != nil {
+			panic(err)
 		}
 		fontTmp[o.FontJSON] = p
 		return p
